@@ -486,13 +486,14 @@ func runC06(c *core.Ctx) error {
 	checkUriSidesSymmetric(c, r7, prog7)
 	checkNameSpecialCasesOnBothSides(c, r7, prog7)
 	checkCursorLoopsAcceptTrailingEmpty(c, r7, prog7)
+	deepFreeFormOK := checkHasParamDeepObject(c, r7, prog7)
 	checkFreshVisitedSets(c, r7, prog7, pkgGen)
 	ex7, err := c.Expand(fixtureNames(c))
 	if err != nil {
 		r7.Undecided("expand", "-", trimPosMsg(err.Error(), 400))
 		return nil
 	}
-	checkParamDecoderShapes(c, r7, ex7)
+	checkParamDecoderShapes(c, r7, ex7, deepFreeFormOK)
 	return nil
 }
 
